@@ -2,7 +2,7 @@ HOOKS = {
     "guard": "vm_memory_verif",
     "enable": "RUSTFLAGS=\"--cfg vm_memory_verif\" (set for the harness by /verif/harness/.cargo/config.toml)",
     "baseline_off_cmd": "cd /repo && cargo test --workspace --no-fail-fast --offline",
-    "source_commits": ["be3842d verif hook H1: copy trace", "9dbbbb5 verif hook H2: AtomicU64 stand-in"],
+    "source_commits": ["be3842d verif hook H1: copy trace", "9dbbbb5 verif hook H2: AtomicU64 stand-in", "d7a8125 + 941d4a8 verif hook H3: emulated Xen ioctls"],
     "add_only": True,
 }
 NOT_YET = {}
@@ -97,10 +97,11 @@ META.update({
     },
     "C17": {
         "category": "proof",
-        "text": "PARTIAL. Guard length = bytes covered and guard pointer = first byte for slices, refs and arrays (full strength after the fix: commit for the array guard); for on-demand Xen mappings the requested window is proved to cover "
+        "text": "PARTIAL (kernel mapping of the real gntdev trusted). Guard length = bytes covered and guard pointer = first byte for slices, refs and arrays (full strength after the fix: commit for the array guard); for on-demand Xen mappings the requested window is proved to cover "
                 "every byte of the guard for all page sizes/offsets/lengths and every access sequence leaves no mapping (10 theorems). The correspondence run observes ptr_guard()/ptr_guard_mut() of every accessor kind and "
-                "element type in the standard build; the Xen build is not exercised in this session.",
-        "design_ref": "DESIGN.md 6/C17", "note": PROOF_NOTE + "Xen half: model only (no hook H3 / no xen-feature harness run).",
+                "element type in the standard build, and in the xen-feature build (hook H3) runs histories over UNIX, foreign, advance-mapped and on-demand grant regions checking that every touched byte range lies inside a window requested during the op, "
+                "that every window is released, that data lands at file offset ref*page+offset, plus forked probes of the guard-bypassing paths.",
+        "design_ref": "DESIGN.md 6/C17", "note": PROOF_NOTE + "Xen half: emulated ioctls (hook H3), not a real Xen host.",
         "technique": "Lean 4 window arithmetic + differential run on guard extents (standard build)",
     },
     "C18": {
@@ -130,5 +131,27 @@ META.update({
                 "Tied through hook H2: the logged step sequence of every public op equals the model's program; plus exhaustive enumeration of the interleavings of 6 (thorough: 9) 2-3 thread scenarios on the real code via a token scheduler.",
         "design_ref": "DESIGN.md 6/C08", "note": PROOF_NOTE + "Memory-model effects weaker than sequential consistency are outside the model.",
         "technique": "Lean 4 theorem over all atomic-step lists + step-program comparison and exhaustive schedule enumeration through a cfg-gated shim",
+    },
+    "C11": {
+        "text": "PARTIAL (ArcSwap/Mutex atomicity trusted). Over ALL lists of atomic steps (every interleaving of any readers and updaters, every sequential history): a snapshot returns the map that was current at that step, "
+                "an owner keeps designating the same never-freed map across any number of replacements, after a completed replace every later snapshot shows it or a later one, the lock is exclusive and the published sequence is exactly "
+                "the enabled replaces in order (no lost replace), freed maps never come back (23 theorems). Tied by sequential histories over several handles/guards/owned Arcs on the real GuestMemoryAtomic "
+                "(map identity encoded in layout + contents, liveness via Weak), and in the thorough tier a reader/updater stress on real threads.",
+        "design_ref": "DESIGN.md 6/C11", "note": PROOF_NOTE + "ArcSwap's hazard/debt protocol and std Mutex are trusted to implement atomic load/store and mutual exclusion.",
+        "technique": "Lean 4 invariant over all step lists + sequential differential run (+ thread stress)",
+    },
+    "C12": {
+        "text": "PARTIAL (programs quantifier by corpus). For every history of create/build/insert/remove/clone/snapshot/drop in any order: an owned mapping is mapped iff some live handle reaches it, is unmapped exactly once when the last owner goes, "
+                "external mappings are never unmapped, no live handle designates an unmapped resource (13 theorems incl. reachable_inv over all histories). Tied by histories on file-backed regions over uniquely named files with /proc/self/maps read after every step "
+                "and every live handle re-read. The 'must not compile' half is decided by a corpus of 23 escaping-accessor programs + 6 controls compiled against /repo.",
+        "design_ref": "DESIGN.md 6/C12", "note": PROOF_NOTE + "No Lean model of the borrow checker: the corpus is a test, labelled as such.",
+        "technique": "Lean 4 ownership invariant over all histories + /proc/self/maps differential run + compile-fail corpus",
+    },
+    "C15": {
+        "text": "PARTIAL (kernel file coherence observed, Xen half model-only in the quick tier). build() succeeds iff no MAP_FIXED, the file range neither overflows nor passes EOF and the kernel accepted; each error variant iff its cause in source precedence; "
+                "a built region reports exactly the request; a failed build never leaves a mapping; raw pointers must be page aligned; base+size beyond 2^64 refused; Xen flag words accepted iff in {0,1,2,0xa} for ALL 2^32 words (structural proof) (27 theorems). "
+                "Tied by requests around EOF/overflow boundaries, flag sets incl. MAP_FIXED, aligned/misaligned raw pointers, /proc/self/maps before/after failures, and pread/pwrite vs region bytes for shared file mappings.",
+        "design_ref": "DESIGN.md 6/C15", "note": PROOF_NOTE + "The kernel is a parameter of the model.",
+        "technique": "Lean 4 acceptance-condition theorems + differential run with an independent acceptance predicate and /proc/self/maps",
     },
 })
